@@ -1137,6 +1137,7 @@ class Engine:
     def ex_AnnAssign(self, n, st, fr, k):
         if n.value is None:
             return k(st)
+        self.hint_literal(ast.Assign(targets=[n.target], value=n.value), fr)
         return self.ev(n.value, st, fr, lambda s, v: self.assign(n.target, v, s, fr, k))
 
     def ex_Assign(self, n, st, fr, k):
